@@ -7,6 +7,7 @@ import PyPhysim.Proofs.C06Append
 import PyPhysim.Proofs.C06CombineView
 import PyPhysim.Proofs.C06Order
 import PyPhysim.Proofs.C06Gen
+import PyPhysim.Proofs.C06GenSim
 
 /-!
 # C06 — combining simulation results is independent of how repetitions were grouped
@@ -22,7 +23,9 @@ tied to the code by the exact differential scripts of `harness/props/c06.py`, an
 arithmetic core of `Result` (`update`, `_assert_can_merge` + `merge`, `get_result`,
 `get_result_mean`, `get_result_var`) — by regeneration: `PyPhysim.Generated.C06` is re-emitted from
 the current AST of `results.py` on every run (`harness/gen/c06.py`) and the bridge theorems of the
-last section prove it equal to the hand model.
+last section prove it equal to the hand model; likewise the control structure of
+`SimulationResults.add_result / append_result / add_new_result / merge_all_results`
+(`PyPhysim.Generated.C06Sim`, `harness/gen/c06sim.py`).
 
 `fresh nm ty acc k` is the object `Result(nm, ty, acc, choice_num=k)`;
 `foldUpd f xs` the object after the script `for o in xs: r.update(*o)`;
@@ -954,5 +957,39 @@ theorem generated_type_codes_and_conversion :
     Generated.C06.tyCode .sum = 0 ∧ Generated.C06.tyCode .ratio = 1 ∧ Generated.C06.tyCode .misc = 2
       ∧ Generated.C06.tyCode .choice = 3 ∧ Generated.C06.updateConvertsNumpy = true := by
   decide
+
+/-- **Tie (regeneration), `SimulationResults.add_result / append_result / add_new_result`**: the
+    functions re-emitted from the source (which list object is created or extended under which
+    name, `ValueError` for a result of another type, `add_new_result` = `Result.create` +
+    `add_result`) equal the hand model on EVERY machine, for every address and argument. -/
+theorem generated_add_append_match_model (m : Mach) (s a : Nat) (name : String) (ty : Ty) (v t : Rat) :
+    Generated.C06Sim.addResult m s a = addResult m s a
+      ∧ Generated.C06Sim.appendResult m s a = appendResult m s a
+      ∧ Generated.C06Sim.addNewResult m s name ty v t = addNewResult m s name ty v t :=
+  ⟨GenSim.addResult_eq m s a, GenSim.appendResult_eq m s a, GenSim.addNewResult_eq m s name ty v t⟩
+
+/-- **Tie (regeneration), `SimulationResults.merge_all_results`**: the control structure
+    re-emitted from the source — an empty `self` adopts deep copies of every list of `other`
+    (name by name, in `other`'s order); otherwise `_assert_can_merge` of the last results of every
+    name of `self` except `'num_skipped_reps'`, then of `'num_skipped_reps'` (against a new SUM
+    result when `self` has none) **before anything is changed**, then `merge` of the last results
+    name by name, then the `'num_skipped_reps'` tail (created with `add_new_result(…, SUMTYPE, 0)`
+    when absent) — computes the same machine and the same exception as the hand model `mergeAll`,
+    for every machine in which `other`'s dictionary has no key twice (a Python `dict`).  So
+    `merge_all_frame`, `merge_never_mutates_operand`, `merge_all_pointwise`,
+    `merge_all_rejected_unchanged` … are theorems about the regenerated function. -/
+theorem generated_merge_all_matches_model (m : Mach) (s o : Nat)
+    (hnd : ((dictOf m o).map (·.1)).Nodup) :
+    Generated.C06Sim.mergeAll m s o = mergeAll m s o :=
+  GenSim.mergeAll_eq m s o hnd
+
+/-- the hypothesis of `generated_merge_all_matches_model` holds on the three-object witness
+    machine, and the regenerated function there does what the hand model does: it merges `c`
+    into `b` without raising -/
+example :
+    ((dictOf aliasWitness 2).map (·.1)).Nodup
+      ∧ (Generated.C06Sim.mergeAll aliasWitness 1 2).2 = none
+      ∧ Generated.C06Sim.mergeAll aliasWitness 1 2 = mergeAll aliasWitness 1 2 := by
+  decide +kernel
 
 end PyPhysim.C06
